@@ -112,8 +112,13 @@ def gen_scenarios(spec, rng, n):
                 if "error" in (op.get("final") or {}) and op["final"]["error"]["code"] not in simhttp.ROUND_TRIP:
                     op["final"]["error"]["code"] = rng.choice(simhttp.ROUND_TRIP)
             actors[j % nact]["ops"].append(op)
-        out.append({"client": client, "actors": [a for a in actors if a["ops"]],
-                    "jitter_default": rng.choice([1.0, 1.0, 0.5, 0.75, 0.25])})
+        sc = {"client": client, "actors": [a for a in actors if a["ops"]],
+              "jitter_default": rng.choice([1.0, 1.0, 0.5, 0.75, 0.25])}
+        if client == "rest" and rng.random() < 0.4:
+            # a scheme-less host with an explicit url_scheme (the documented way to reach a local/test server)
+            sc["url_scheme"] = "http"
+            sc["rest_host"] = rng.choice(["localhost:8080", "sim.invalid"])
+        out.append(sc)
     return out
 
 
